@@ -26,6 +26,7 @@ type CCfg struct {
 	YieldProb uint32 `json:"yield_prob"`
 	Topics    []string `json:"topics"`
 	Channels  []string `json:"channels"`
+	ShortReads int     `json:"short_reads,omitempty"` // 0 off, else one read in n returns only a part of what has arrived (TCP segmentation)
 }
 
 type cLookupd struct {
@@ -56,8 +57,10 @@ type cWorld struct {
 
 func genCCfg(rc *RunCtx) CCfg {
 	r := rc.Rng
-	return CCfg{NLookupd: r.Range(1, 3), Stub: r.Chance(1, 2), YieldProb: uint32(r.Pick(0, 1024, 4096)),
+	c := CCfg{NLookupd: r.Range(1, 3), Stub: r.Chance(1, 2), YieldProb: uint32(r.Pick(0, 1024, 4096)),
 		Topics: []string{"t0", "t1", "t2", "e#ephemeral"}[:r.Range(2, 4)], Channels: []string{"c0", "c1", "x#ephemeral", "c2", "c3", "c4"}[:r.Pick(1, 2, 3, 5, 6)]}
+	c.ShortReads = NewPRNG(rc.Seed ^ 0x5e6).Pick(0, 0, 2, 6) // own stream: the rest of the configuration of a seed is unchanged
+	return c
 }
 
 func genCOps(rc *RunCtx, c CCfg) []Op {
@@ -124,6 +127,8 @@ func clusterWorld(rc *RunCtx) {
 		return
 	}
 	rc.Sched.Prob = c.YieldProb
+	netRng := NewPRNG(rc.Seed ^ 0x77)
+	installShortReads(rc, c.ShortReads, &netRng)
 	for i := 0; i < c.NLookupd; i++ {
 		lk := &cLookupd{tcp: fmt.Sprintf("127.0.0.1:%d", 4160+10*i), http: fmt.Sprintf("127.0.0.1:%d", 4161+10*i)}
 		w.lk = append(w.lk, lk)
@@ -173,6 +178,7 @@ func clusterWorld(rc *RunCtx) {
 	for i, op := range ops {
 		rc.step = i + 1
 		rc.Reseed(op.Uid)
+		netRng = NewPRNG(rc.Seed*131 + uint64(op.Uid))
 		rc.opsKind[op.Kind]++
 		rc.Logf("op %d uid=%d %s a=%d b=%d s=%q", i, op.Uid, op.Kind, op.A, op.B, op.S)
 		w.exec(op)
